@@ -97,7 +97,7 @@ static long spin_streak;
 static long stall_point[MAXDEV];
 static int  nstall, idle_spins;
 static uint64_t trace_hash;
-static FILE *trace_f;
+static FILE *trace_f, *t0_f; /* t0_f (VS_T0POINTS): indices of the decision points at which thread 0 (the application) is the one to run */
 void (*vs_on_deadlock)(void);
 
 #define MAXCV 4096
@@ -377,6 +377,7 @@ again:
         }
         if (n > max_enabled) max_enabled = n;
         if (trace_f) { fputc(n > 255 ? 255 : n, trace_f); fputc(choice, trace_f); }
+        if (t0_f && order[0] == 0) fprintf(t0_f, "%ld\n", npoints);
         VThread *c = &thr[order[choice]];
         uint32_t rec[5] = { (uint32_t)order[choice], (uint32_t)c->op, (uint32_t)obj_id(c), (uint32_t)n, (uint32_t)(cur < 0 ? 999 : thr[cur].op) };
         trace_hash = vu_fnv(rec, sizeof rec, trace_hash);
@@ -540,13 +541,14 @@ void vs_init(void) {
     if ((e = getenv("VS_VERBOSE"))) verbose = atoi(e);
     if ((e = getenv("VS_UNLOCK_YIELD"))) unlock_yield = atoi(e);
     if ((e = getenv("VS_TRACE")) && *e) trace_f = fopen(e, "wb");
+    if ((e = getenv("VS_T0POINTS")) && *e) t0_f = fopen(e, "w");
 }
 int vs_active(void) { return 1; }
 void vs_quiesce(void) { yield_point(OP_QUIESCE, NULL, 0); }
 void vs_yield(void) { yield_point(OP_YIELD, NULL, 0); }
 long vs_points(void) { return npoints; }
 int vs_unjoined(void) { int n = 0; for (int i = 1; i < nthr; i++) if (!thr[i].joined) n++; return n; }
-long vs_fini(void) { write_summary("ok"); if (trace_f) { fclose(trace_f); trace_f = NULL; } return npoints; }
+long vs_fini(void) { write_summary("ok"); if (trace_f) { fclose(trace_f); trace_f = NULL; } if (t0_f) { fclose(t0_f); t0_f = NULL; } return npoints; }
 void vs_hash_region(void *p, size_t n) {
     for (int i = 0; i < ex_nregion; i++) if (ex_region[i].p == p) { ex_region[i].n = n; return; }
     if (ex_nregion < 16) { ex_region[ex_nregion].p = p; ex_region[ex_nregion].n = n; ex_nregion++; }
